@@ -26,9 +26,9 @@ func runC35(c *Ctx) {
 		{"channel", "sentClose", ".writeMu", false}, {"channel", "packetPool", ".writeMu", false},
 	} {
 		n := c.checkGuarded("C35.lock", fns, gs, map[string]string{
-			"(*mux).newChannel":   "channel under construction, not yet shared",
-			"(*channel).Accept":   "reads the initial window to build OPEN_CONFIRMATION; no data can arrive before that message is sent",
-			"(*mux).openChannel":  "reads the initial window to build CHANNEL_OPEN on a channel it just created; no data can arrive before the peer confirms",
+			"(*mux).newChannel":  "channel under construction, not yet shared",
+			"(*channel).Accept":  "reads the initial window to build OPEN_CONFIRMATION; no data can arrive before that message is sent",
+			"(*mux).openChannel": "reads the initial window to build CHANNEL_OPEN on a channel it just created; no data can arrive before the peer confirms",
 		})
 		c.check(n > 0, "C35.lock", gs.typ+"."+gs.field+" accesses", nil, fmt.Sprintf("%d accessing functions", n), "no access found (anchor lost)")
 	}
@@ -318,7 +318,7 @@ func runC35(c *Ctx) {
 	minPL, _ := pkgConstInt(c, "ssh", "minPacketLength")
 	for _, spec := range []struct {
 		fn, typ string
-		target func(f *ssa.Function) ssa.Instruction
+		target  func(f *ssa.Function) ssa.Instruction
 	}{
 		{"(*channel).handlePacket", "channelOpenConfirmMsg", func(f *ssa.Function) ssa.Instruction {
 			for _, s := range storesTo(f, "channel", "maxRemotePayload") {
